@@ -701,12 +701,21 @@ func (in *Interp) eval(fr *frame, v ssa.Value) Value {
 		if !capT.IsConst() {
 			// symbolic capacity: only the allocation size depends on it.  Obligation: it is a legal size;
 			// then model the slice with cap == len (append reallocates; contents semantics are unchanged).
-			w := int(capT.sort.W)
-			bad := in.tt.Or(in.tt.Slt(capT, in.tt.BV(w, uint64(n))), in.tt.Slt(in.tt.BV(w, 1<<40), capT))
+			signed := true
+			if bt, ok := x.Cap.Type().Underlying().(*types.Basic); ok {
+				_, signed, _ = basicWidth(bt)
+			}
+			var c64 *Term
+			if signed {
+				c64 = in.tt.Sext(capT, 64)
+			} else {
+				c64 = in.tt.Zext(capT, 64)
+			}
+			bad := in.tt.Or(in.tt.Slt(c64, in.tt.BV(64, uint64(n))), in.tt.Slt(in.tt.BV(64, 1<<40), c64))
 			if in.branch(bad, "makecap") {
 				in.goPanic("makeslice: cap out of range (symbolic)")
 			}
-			capT = in.tt.BV(w, uint64(n))
+			capT = in.tt.BV(int(capT.sort.W), uint64(n))
 		}
 		c := in.concreteInt(capT, "make cap")
 		if n < 0 || c < n || c > 1<<24 {
